@@ -296,16 +296,30 @@ def run_check(pid, tier, only=None, keep=False, parallel=None):
             for h in hb:
                 files.setdefault(h["file"], set()).add(h["fn"])
             stub = False
+            by_mod = {}
             for fpath, fns in files.items():
-                mod = module_of(fpath)
-                dest = os.path.join(scratch, "hcopy_%s_%s" % (b, os.path.basename(fpath)))
-                filtered_copy(fpath, dest, fns, known)
-                if mod in mods:
-                    log("ERROR: two harness files for module", mod, "in one build; merge not supported")
-                    return 2
-                mods[mod] = dest
-                if "kani::stub" in open(fpath).read():
-                    stub = True
+                by_mod.setdefault(module_of(fpath), []).append((fpath, fns))
+            file_sub = {}
+            for mod, lst in by_mod.items():
+                dests = []
+                for k, (fpath, fns) in enumerate(sorted(lst)):
+                    dest = os.path.join(scratch, "hcopy_%s_%s" % (b, os.path.basename(fpath)))
+                    filtered_copy(fpath, dest, fns, known)
+                    dests.append(dest)
+                    if "kani::stub" in open(fpath).read():
+                        stub = True
+                    file_sub[fpath] = ("f%d" % k) if len(lst) > 1 else None
+                if len(lst) == 1:
+                    mods[mod] = dests[0]
+                else:
+                    # several harness files for one module: a wrapper module that re-exports the real
+                    # module's (private) items to its children
+                    wrap = os.path.join(scratch, "hwrap_%s_%s.rs" % (b, mod))
+                    with open(wrap, "w") as f:
+                        f.write("#![allow(unused_imports, dead_code)]\nuse super::*;\n")
+                        for k, dpath in enumerate(dests):
+                            f.write('#[path = "%s"]\nmod f%d;\n' % (dpath, k))
+                    mods[mod] = wrap
             mdir = os.path.join(scratch, "mirror_" + b)
             missing = mirror.make_mirror(mdir, mods)
             if missing:
@@ -331,6 +345,8 @@ def run_check(pid, tier, only=None, keep=False, parallel=None):
             for h in hb:
                 mod = module_of(h["file"])
                 sub = (h["sub"] + "::") if h.get("sub") else ""
+                if file_sub.get(h["file"]):
+                    sub = file_sub[h["file"]] + "::" + sub
                 full = "%s::verif_h::%s%s" % (mod, sub, h["fn"]) if mod != "lib" else "verif_top::%s%s" % (sub, h["fn"])
                 h = dict(h)
                 h["full"] = full
@@ -400,13 +416,13 @@ def run_check(pid, tier, only=None, keep=False, parallel=None):
                 smt_proc.kill()
                 inconclusive.append("SMT exploration timed out")
             for ln in open(os.path.join(scratch, "smt.log"), errors="replace"):
-                if ln.startswith("[smt") and " pass " not in ln:
+                if ln.startswith("[smt") and " pass " not in ln and " expensive " not in ln:
                     log(ln.rstrip())
             if os.path.exists(smt_out):
                 smt_info = json.load(open(smt_out))
                 for r in smt_info["results"]:
                     key = "smt:%s:/%s/%s" % (r["mode"], r["src"], r["flags"])
-                    if r["result"] == "pass":
+                    if r["result"] in ("pass", "expensive"):
                         continue
                     kf = [k for k, v in known.items() if v["prop"] == pid and v.get("what", "").find(key) >= 0]
                     if r["result"] == "fail":
